@@ -4315,7 +4315,8 @@ def size(array, axis=None):
                         "ak.size is ambiguous due to record of different "
                         "sizes" + ak._util.exception_suffix(__file__)
                     )
-            sizes.extend(compare)
+            if compare is not None:
+                sizes.extend(compare)
         elif isinstance(layout, ak.layout.NumpyArray):
             if axis is None:
                 sizes.extend(nplike.asarray(layout).shape[1:])
@@ -4348,6 +4349,11 @@ def size(array, axis=None):
                 out *= size
         return out
     else:
+        if len(sizes) != axis + 1:
+            raise ValueError(
+                "ak.size: axis {0} exceeds the depth of this array".format(axis)
+                + ak._util.exception_suffix(__file__)
+            )
         if sizes[-1] is None:
             raise ValueError(
                 "ak.size is ambiguous due to variable-length arrays at "
